@@ -945,7 +945,7 @@ pub fn c06(em: &mut Emit, thorough: bool, seed: u64) {
         let len = *rng.pick(&lens);
         let mut e = ent(len);
         let nh = rng.usize(5);
-        let names = ["x-ent-a", "content-language", "x-ent-b", "x-ent-a", "x-long"];
+        let names = ["x-ent-a", "content-type", "x-ent-b", "x-ent-a", "content-language"];
         e.headers = (0..nh)
             .map(|k| {
                 let vlen = *rng.pick(&[0usize, 1, 7, 60, 300]);
